@@ -13,8 +13,9 @@ def main(pid):
     for f in sorted(glob.glob(os.path.join(VERIF, 'replays', pid, '*.json'))):
         j = json.load(open(f))
         key = j['key']
-        for cls, rx, what in CLASSES.get(pid, []):
-            if re.search(rx, key):
+        for ent in CLASSES.get(pid, []):
+            cls, rx, what = ent[:3]
+            if re.search(rx, key) and (len(ent) < 4 or re.search(ent[3], json.dumps(j.get('replay')))):
                 if (pid, key) not in have:
                     db['findings'].append(dict(property=pid, key=key, cls=cls, what=what, status='open')); have.add((pid, key)); added += 1
                 break
